@@ -91,4 +91,9 @@ def read (b : Bytes) : Except PErr (Nat × Bytes) :=
   | .ok r => .ok r
   | .error _ => .error .eof
 
+/-- the capacity of an `l`-byte varint: `2^(8l-2)` for `l ∈ {1,2,4,8}` (0 otherwise). -/
+def capacity (l : Nat) : Nat :=
+  if l = 1 then 64 else if l = 2 then 16384 else if l = 4 then 1073741824
+  else if l = 8 then 4611686018427387904 else 0
+
 end Req.H3.Varint
